@@ -88,6 +88,18 @@ def operand_values(ins):
     return []
 
 
+def signature(ins):
+    """opcode(kinds of the operand types): the mechanism part of a VM-exception key"""
+    try:
+        ks = []
+        for v in operand_values(ins):
+            k = _kind(getattr(v, "Type", None))
+            ks.append(k.lower() if k != "?" else "?")
+        return "%s(%s)" % (ins.OpCode.name, ",".join(ks))
+    except Exception:
+        return ins.OpCode.name
+
+
 def declared_extent(t):
     """number of valid indices of the outermost dimension of an IR type, or None"""
     k = _kind(t)
@@ -164,7 +176,7 @@ class Observer:
     def _step(self, function, pc, ins, args, localScope, globalScope):
         act = self.stack[-1]
         opname = ins.OpCode.name
-        self.cur_ins = (function.Name, pc, opname)
+        self.cur_ins = (function.Name, pc, opname, ins)
         if self.opt_cov:
             self.opcodes[opname] += 1
             self.ops_run.add(opname)
